@@ -221,8 +221,6 @@ def view_deser(cx, T):
     attributed = False
     for level, path, cls, f, where in fields:
         exp = cx.E(cls, f)
-        if any(loc[: len(path) + 1] == path + (exp,) and k != "unexpected" for loc, k in es if len(loc) > len(path) + 1) and (path + (exp,), "unexpected") not in es:
-            continue
         if (path + (exp,), "unexpected") not in es:
             continue
         wanted = None
@@ -286,6 +284,9 @@ def view_error_locs(cx, T):
 
     def run(view, datum, expected):
         """expected: {(loc, kind): (cls, f, where)}"""
+        if not expected:
+            env.count("abstain:no-expected-error:" + view)
+            return
         o = call(deserialize, T, datum, **cx.kw)
         env.case(cx.sig, view, json.dumps(datum, sort_keys=True)[:200])
         if o.kind != "verr":
@@ -886,7 +887,7 @@ def selection(env):
     chosen = []
     covered = set()
     for it in items:
-        if h64("c11-sel", seed, it[0]) % 17 == 0:
+        if h64("c11-sel", seed, it[0]) % 5 == 0:
             k = h64("c11-cfg", seed, it[0])
             mine = [cfgs[k % len(cfgs)], cfgs[(k // 7 + 1 + k % len(cfgs)) % len(cfgs)]]
             if mine[0] == mine[1]:
@@ -928,7 +929,7 @@ def run(env):
             run_program(env, prog, cfgs)
         # seeded bigger programs
         allc = G.configs_all()
-        for j in range(env.n(160, 6000)):
+        for j in range(env.n(480, 8000)):
             if env.out_of_time():
                 env.notes.append("time cap reached")
                 break
